@@ -391,6 +391,7 @@ fn main() {
                 let init = v["init"].as_str().unwrap_or("absent").to_string();
                 let mut clients = Vec::new();
                 let mut kind = "C03".to_string();
+                let mut has_flush = false;
                 for c in v["prog"].as_array().unwrap() {
                     let mut cmd = prog::cmd_from_json(c);
                     cmd.key = b"ck".to_vec();
@@ -400,10 +401,19 @@ fn main() {
                     if !matches!(cmd.op.as_str(), "get" | "set" | "delete") {
                         kind = "C04".to_string();
                     }
+                    if cmd.op == "flush" {
+                        cmd.key = vec![];
+                        cmd.flags = 0;
+                        has_flush = true;
+                    }
                     clients.push(vec![cmd]);
                 }
+                if has_flush {
+                    kind = "C08".to_string();
+                }
+                // (programs with a flush are looked at again after the delay has run out, as the model does)
                 let p = conc::Program { layer: "memc".into(), name: format!("tlc-{}", n), kind, init: init.clone(), policy: "none".into(), mem_limit: 0,
-                    keys: vec![b"ck".to_vec()], setup: concgen::setup(&init), clients, post_tick: 0 };
+                    keys: vec![b"ck".to_vec()], setup: concgen::setup(&init), clients, post_tick: if has_flush { if init == "expired" { 9 } else { 4 } } else { 0 } };
                 let order: Vec<usize> = v["sched"].as_array().unwrap().iter().map(|x| x[0].as_u64().unwrap_or(1) as usize).collect();
                 let sites: Vec<String> = v["sched"].as_array().unwrap().iter().map(|x| x[1].as_str().unwrap_or("").to_string()).collect();
                 let r = conc::run_sched(&p, &[], Some(&order), &mut None, 400);
